@@ -224,6 +224,15 @@ func stableSign(a, b, c Point) Direction {
 	det := -e1.Cross(e2).Dot(op)
 	maxErr := detErrorMultiplier * math.Sqrt(e1.Norm2()*e2.Norm2())
 
+	// The error bound above assumes that no intermediate product underflows.
+	// When the edges are so short that it is itself close to the underflow
+	// threshold, the determinant may have lost all of its precision (and the
+	// bound may have been flushed to zero), so the result cannot be trusted.
+	const minNoUnderflowError = 0x1p-1000
+	if maxErr < minNoUnderflowError {
+		return Indeterminate
+	}
+
 	// If the determinant isn't zero, within maxErr, we know definitively the point ordering.
 	if det > maxErr {
 		return CounterClockwise
